@@ -17,6 +17,7 @@ RULE = ("seeded random expression trees (depth<=4 quick, <=7 thorough) over the 
         "passed to the real Quantity(); outcome compared with the reference evaluator: refusal <=> REFUSE, SI value (ratio "
         "convention) to 1e-12 rel., exponent vector when the value is finite and non-zero. non-trivial = tree has >=1 operator "
         "node and >=1 dimensional leaf; distinct = distinct srepr of the tree.")
+RULE = RULE + ' Also: exponents and function arguments that are dimensionless only after derived dimensions are expanded (J/(N m), W s/J, Pa m^3/J, V A/W, C/(A s)).'
 ASSUMPTIONS = ["vf/units_ref.py unit table is the reference for unit values/dimensions",
                "mpmath (40 digits, complex principal values) is the reference arithmetic",
                "SymPy's canonicalisation of the generated tree is shared by library and reference (both see the same object)"]
